@@ -23,13 +23,14 @@ TCall  == /\ Ev("CALL") /\ E.c \in Conns
           /\ ~E.hang
           /\ Same(last'.replies, E.replies)
           /\ last'.closed = E.closed
+TClient == Ev("CLIENT") /\ ClientRun /\ E.exit = 0 /\ Same(last'.replies, E.replies)
 TAlive == Ev("ALIVE") /\ E.ok = up /\ UNCHANGED vars
 (* only after the process has died (never with Dev = {}): what the rest of a history then looks like *)
 TDeadOpen == Ev("OPEN") /\ ~E.ok /\ ~up /\ UNCHANGED vars
 TDeadCall == Ev("NOCONN") /\ ~up /\ UNCHANGED vars
 
 TraceInit == Init /\ l = 1
-TraceNext == TReset \/ TOpen \/ TClose \/ TCall \/ TAlive \/ TDeadOpen \/ TDeadCall
+TraceNext == TReset \/ TOpen \/ TClose \/ TCall \/ TClient \/ TAlive \/ TDeadOpen \/ TDeadCall
 TraceSpec == TraceInit /\ [][TraceNext]_tvars
 
 ASSUME TLCSet(1, 0)
